@@ -402,6 +402,7 @@ theorem invcdfGam_final {fuel : Nat} {cdf : ℝ → ℝ} {p mu l t r : ℝ} (h0 
 theorem invcdfMix_final {fuel : Nat} {cdf : ℝ → ℝ} {p m r : ℝ} (h : invcdfMix fuel cdf p m = some r) :
     ∃ x1 x2, FinalMix cdf p x1 x2 r := by
   unfold invcdfMix at h
+  simp only [bracketRightLim_real] at h
   split at h
   · exact absurd h (by simp)
   · rename_i x1 hb1
@@ -473,7 +474,7 @@ theorem invcdfMix_terminates {cdf : ℝ → ℝ} {p m XL XR : ℝ} {N0 N1 N2 fue
   have hbis := bisectMix_terminates cdf p N2 x1 x2 (by linarith) hw
   unfold invcdfMix
   rw [hx1']; simp only []
-  rw [hx2']
+  rw [bracketRightLim_real, hx2']
   exact isSome_of_fuel_le (f := fun n => bisectMix cdf p n x1 x2) (fun n m r => bisectMix_fuel_mono cdf p n m x1 x2 r) hf2 hbis
 
 end EaselModel.Dist.BisectTerm
